@@ -106,4 +106,19 @@ CHECKS = {
         note="Complete output directories are compared, including .json and .log. Wall-clock independence is checked by "
              "patching the sources, not by waiting.",
     ),
+    "C12": dict(
+        level="exploration",
+        technique="property-based round-trip testing: Hypothesis-drawn splicer bodies and supply routes, block extraction "
+                  "from regenerated output, feed-back fixed point",
+        design_ref="DESIGN.md section 4, C12",
+        text="After a harvest run that lists every splicer block of every output language, Hypothesis draws blocks, "
+             "bodies (code-like alphabet with braces, %, quotes, blank/indented lines, trailing blanks) and the route "
+             "(command-line splicer file, YAML splicer: list + --path, splicer_code, declaration-level, with junk outside "
+             "markers and a losing file body against a declaration-level one); the regenerated block must equal the body "
+             "modulo leading indentation and trailing blanks, unsupplied blocks keep their content, and feeding all "
+             "generated files back as splicer files reproduces every block.",
+        note="Domain as stated by the property: body lines do not begin with a formatting metacharacter. Lines ending in "
+             "'+' or containing a tab are probed separately and are recorded known findings. Getter/setter bodies of "
+             "member variables (forced by Shroud) and ambiguous block names are excluded.",
+    ),
 }
